@@ -632,7 +632,7 @@ def jobs_C09(rng, tier):
                 if n in (3, 4, 8, 16):
                     # ordinary heads, then a common tail in a tiny unit (2^-30 .. 2^-45): an absolute threshold inside a
                     # normaliser (a guard `> epsilon` instead of `> 0`) freezes or kills the output there
-                    k2 = rng.choice([30, 36, 45])
+                    k2 = rng.choice([30, 36, 45, 60, 70])   # down to 8e-22: below epsilon as an ABSOLUTE amplitude (wave-6 seed C09f)
                     u = F(1, 2 ** k2)
                     # TrendFlex / ReFlex forget through a 0.96-per-step leaky mean square: the head (|x| <= 128) has to fade
                     # below 1e-8 of a tail in units of 2^-k2 before the outputs can agree: that many steps, plus a margin
